@@ -295,8 +295,23 @@ func GetAttr(self Object, keyObj Object) (res Object, err error) {
 	return GetAttrString(self, key)
 }
 
+// checkMutableType returns a TypeError if self is a built-in (not python
+// defined) type object, whose attributes can't be set or deleted
+func checkMutableType(self Object) error {
+	// (instances of python classes are *Type too: their ObjectType is a heap type)
+	if t, ok := self.(*Type); ok && t.Flags&TPFLAGS_HEAPTYPE == 0 && (t.ObjectType == nil || t.ObjectType.Flags&TPFLAGS_HEAPTYPE == 0) {
+		return ExceptionNewf(TypeError, "can't set attributes of built-in/extension type '%s'", t.Name)
+	}
+	return nil
+}
+
 // SetAttrString
 func SetAttrString(self Object, key string, value Object) (Object, error) {
+	// The attribute tables of the built-in types are shared by every
+	// context (and goroutine): they cannot be modified from python
+	if err := checkMutableType(self); err != nil {
+		return nil, err
+	}
 	// First look in type's dictionary etc for a property that could
 	// be set - do this before looking in the instance dictionary
 	setter := self.Type().NativeGetAttrOrNil(key)
@@ -340,6 +355,9 @@ func SetAttr(self Object, keyObj Object, value Object) (Object, error) {
 
 // DeleteAttrString
 func DeleteAttrString(self Object, key string) error {
+	if err := checkMutableType(self); err != nil {
+		return err
+	}
 	// First look in type's dictionary etc for a property that could
 	// be set - do this before looking in the instance dictionary
 	deleter := self.Type().NativeGetAttrOrNil(key)
